@@ -129,15 +129,15 @@ def gen_case_extreme(rng):
 
 def generate(rng, tier):
     cases = []
-    for _ in range(80 if tier == "quick" else 2000):
+    for _ in range(gen.N(tier, 80, 2000)):
         g = gen_case_extreme(rng)
         if g:
             shape, defx, xs, flat, qs = g
             c = build_line(rng, "F", shape, defx, xs, flat, qs, False)
             c["meta"]["extreme"] = True
             cases.append(c)
-    nq = 500 if tier == "quick" else 12000
-    nf = 300 if tier == "quick" else 6000
+    nq = gen.N(tier, 500, 12000)
+    nf = gen.N(tier, 300, 6000)
     for _ in range(nq):
         n, shape, defx, xs, flat, qs = gen_case_q(rng)
         cases.append(build_line(rng, "Q", shape, defx, xs, flat, qs, False))
@@ -146,7 +146,7 @@ def generate(rng, tier):
         cases.append(build_line(rng, "F", shape, defx, xs, flat, qs, False))
     # i64 elements: the crate's integer semantics (truncating slope) are not the property's real-number statement, so these cases are
     # judged by the model correspondence only (model executed at Z64 = i64 arithmetic)
-    for _ in range(60 if tier == "quick" else 1500):
+    for _ in range(gen.N(tier, 60, 1500)):
         n = rng.choice([2, 3, 4, 6, 10])
         shape = [n] + gen.trailing_shape(rng, 1)
         xs = gen.axis_i(rng, n, rng.choice(["unit", "uniform", "random", "gappy", "small", "evenish"]))
